@@ -19,9 +19,14 @@ def enum_of(sadt):
     return bool(sadt) and (sadt.startswith("diplomat_core::hir::") or sadt.startswith("diplomat_tool::") or sadt.startswith("diplomat_core::ast::"))
 
 
+COVERED = set()   # (fn path, line) of panic-family macros judged by the arm inventory (selected by a real variant, or pure non_exhaustive absorbers)
+PANIC_MACROS = ("panic", "unreachable", "unimplemented", "todo", "assert", "assert_eq", "assert_ne")
+
+
 def inventory(units, adts):
     """-> list of dict(fn, enum, values, macro, msg, loc)"""
     out = []
+    COVERED.clear()
     for unit in units:
         for f in unit.fn_list:
             if f.get("dk") == "Closure" or "hir" not in f:
@@ -60,6 +65,10 @@ def inventory(units, adts):
                     table = C.decision_table(mt, adts)
                 except C.CheckError:
                     continue
+                for i in pan:
+                    for x in C.walk(arms[i]["b"]):
+                        if x.get("k") == "macro" and x.get("name") in PANIC_MACROS:
+                            COVERED.add((path, x.get("ln")))
                 sel = {}
                 for v, hits in table:
                     for i, cond in hits:
@@ -163,6 +172,45 @@ def run(ck, facts):
     ck.note("%d panic arms selected by enum shapes; %d triaged entries no longer present (informational): %s" % (len(inv), len(set(tri) - seen), sorted(set(tri) - seen)[:3]))
     if len(inv) < 40:
         ck.bad("R1", "floor", "only %d shape-selected panic arms found (the extractor lost sight of the backends)" % len(inv))
+
+    # ---------------- R1 (cont.) every other panic-family site (condition-guarded, let-else on non-HIR values, wild arms of matches on Option/tuples) is triaged too
+    cspec = json.load(open(os.path.join(C.VERIF, "spec", "cond_panics.json")))["sites"]
+    found_c = {}
+    for f in tool.fn_list:
+        if "hir" not in f or f.get("exp") or f.get("dk") == "Closure":
+            continue
+        pth = C.norm_path(f["path"])
+        if not in_scope(pth):
+            continue
+        for n in C.walk(C.fn_body(f)):
+            if n.get("k") == "macro" and n.get("name") in PANIC_MACROS and (pth, n.get("ln")) not in COVERED:
+                msg = (C.macro_strings(n) or [""])[0]
+                k = "%s/%s/%s" % (pth, n["name"], re.sub(r"\s+", " ", msg)[:48])
+                found_c.setdefault(k, []).append(C.loc(f, n.get("ln")))
+
+    def loose_c(k_):
+        fn_, mac_, msg_ = k_.split("/", 2)
+        segs = fn_.split("::")
+        return ("::".join(segs[:2]) if len(segs) > 2 else segs[0], mac_, msg_)
+    by_loose_c = {}
+    for k_ in cspec:
+        by_loose_c.setdefault(loose_c(k_), []).append(k_)
+    for k, locs_ in sorted(found_c.items()):
+        t = cspec.get(k)
+        if not t:
+            cands = [c for c in by_loose_c.get(loose_c(k), []) if c not in found_c]
+            if cands:
+                t = cspec[cands[0]]
+                if t["class"] == "finding":
+                    k = cands[0]
+        if not t:
+            ck.bad("R1", "cond:" + k, "untriaged %s! site that is not selected by an enum variant: which accepted bridge / configuration reaches it?" % k.split("/")[1], locs_[0])
+        elif t["class"] == "finding":
+            ck.bad("R1", "cond:" + k, "reachable for accepted input: %s" % t.get("why", ""), locs_[0])
+        else:
+            ck.expect(len(locs_) <= t.get("count", 1), "R1", "cond:" + k, "%s: %s" % (t["class"], t.get("why", ""))[:200], "%d sites, %d triaged" % (len(locs_), t.get("count", 1)), locs_[0])
+    if len(found_c) < 20:
+        ck.bad("R1", "cond-floor", "only %d non-arm panic sites found (the extractor lost sight of the backends)" % len(found_c))
 
     # ---------------- R2 cross-check of impossible-by-gate entries that rely on a backend support flag
     sup = {}
